@@ -131,12 +131,19 @@ TakeBusy(c) ==
   /\ held' = held \ {c} /\ size' = size - 1 /\ taken' = taken \cup {c} /\ reg' = reg \ {c}
   /\ UNCHANGED <<idle, nextC, dead, closed, cache, nq, parses>>
 
+\* two clients taken by two threads at the same moment, both waiting for the registry first
+TakeBoth(c1, c2) ==
+  /\ c1 < c2 /\ c1 \in held /\ c2 \in held /\ Spend
+  /\ held' = held \ {c1, c2} /\ size' = size - 2 /\ taken' = taken \cup {c1, c2} /\ reg' = reg \ {c1, c2}
+  /\ UNCHANGED <<idle, nextC, dead, closed, cache, nq, parses>>
+
 Plans == [1..MaxSize -> Modes]
 Next ==
   \/ \E plan \in Plans : Get(plan)
   \/ \E c \in Conns : Drop(c) \/ Return(c) \/ Take(c) \/ TakeBusy(c)
   \/ \E c \in Conns : \E k \in Keys : Prepare(c, k) \/ PrepareJoin(c, k)
   \/ \E c \in Conns : \E k \in Keys : \E d \in {1, 2} : TxPrepare(c, k, d)
+  \/ \E c1 \in Conns : \E c2 \in Conns : TakeBoth(c1, c2)
   \/ Clear \/ \E k \in Keys : Remove(k)
 Spec == Init /\ [][Next]_vars
 
